@@ -50,7 +50,9 @@ REPLAY_PLANS = {
                   "thorough": [sim("U1", 800, 11, "Fam_C04", "NextSim_Measure"), sim("U2", 400, 11, "Fam_C04", "NextSim_Measure"),
                                sim("U3", 200, 11, "Fam_C04", "NextSim_Measure")]}),
     "C05": dict(
-        cover=covers("F_Measure"),
+        cover={"quick": [cov("U1", "U1_ScriptsQ", "F_Measure", 240), cov("U2", "U2_ScriptsQ", "F_Measure", 180), cov("U2", "U2_ScriptsDead", "F_MeasInv", 140)],
+               "thorough": [cov("U1", "U1_Scripts", "F_Measure", 2500), cov("U2", "U2_Scripts", "F_Measure", 2500), cov("U2", "U2_ScriptsDead", "F_MeasInv", 1500),
+                            cov("U3", "U3_Scripts", "F_Measure", 1200), cov("U4", "U4_Scripts", "F_Measure", 800)]},
         actions={"measure", "invalid"},
         exhaustive={"quick": [("U1", 3, "Fam_C05")], "thorough": [("U1", 4, "Fam_C05")]},
         simulate={"quick": [sim("U1", 96, 9, "Fam_C05", "NextSim_Measure"), sim("U2", 48, 9, "Fam_C05", "NextSim_Measure")],
@@ -77,14 +79,18 @@ REPLAY_PLANS = {
                   "thorough": [sim("U1", 800, 11, "Fam_C09", "NextSim_Povm"), sim("U2", 300, 10, "Fam_C09", "NextSim_Povm"),
                                sim("U3", 200, 10, "Fam_C09", "NextSim_Povm")]}),
     "C10": dict(
-        cover=covers("F_Resize"),
+        cover={"quick": [cov("U1", "U1_ScriptsQ", "F_Resize", 220), cov("U2", "U2_ScriptsQ", "F_Resize", 160), cov("U4", "U4_Scripts", "F_Resize", 200)],
+               "thorough": [cov("U1", "U1_Scripts", "F_Resize", 2500), cov("U2", "U2_Scripts", "F_Resize", 2500), cov("U4", "U4_Scripts", "F_Resize", 1500),
+                            cov("U3", "U3_Scripts", "F_Resize", 600)]},
         actions={"resize", "op1", "opn"},
         exhaustive={"quick": [("U1", 3, "Fam_C10")], "thorough": [("U1", 4, "Fam_C10")]},
         simulate={"quick": [sim("U1", 96, 10, "Fam_C10", "NextSim_Resize"), sim("U4", 64, 10, "Fam_C10", "NextSim_Resize")],
                   "thorough": [sim("U1", 800, 12, "Fam_C10", "NextSim_Resize"), sim("U4", 500, 12, "Fam_C10", "NextSim_Resize"),
                                sim("U2", 200, 12, "Fam_C10", "NextSim_Resize")]}),
     "C11": dict(
-        cover=covers("F_Op"),
+        cover={"quick": [cov("U4", "U4_Scripts", "F_Op", 360, over={"PolGates": "None", "CompGates": "BS_Gates", "FockGates": "PS_Gates", "CustomOps2": "None", "CustomOps3": "None"}),
+                         cov("U2", "U2_ScriptsQ", "F_Op", 120)],
+               "thorough": [cov("U4", "U4_Scripts", "F_Op", 3000), cov("U2", "U2_Scripts", "F_Op", 2000), cov("U4", "U4_Scripts", "F_Op", 2500, depth=2, over={"PolGates": "None", "CompGates": "BS_Gates", "FockGates": "PS_Gates", "CustomOps2": "None", "CustomOps3": "None", "Kraus1": "None", "Kraus2": "None"})]},
         actions={"opn", "op1"},
         exhaustive={"quick": [("U4", 3, "Fam_C11")], "thorough": [("U4", 4, "Fam_C11")]},
         ex_init={"U4": "U4_ExInit"},
@@ -92,17 +98,20 @@ REPLAY_PLANS = {
                   "thorough": [sim("U4", 1000, 13, "Fam_C11", "NextSim_Comp", over={"PolGates": "None", "CompGates": "BS_Gates", "FockGates": "PS_Gates", "CustomOps2": "None", "CustomOps3": "None"}),
                                sim("U2", 300, 12, "Fam_C11", "NextSim_Comp", over={"CompGates": "BS_Gates", "FockGates": "PS_Gates"})]}),
     "C17": dict(
-        cover=covers("F_Invalid"),
+        cover={"quick": [cov("U1", "U1_ScriptsQ", "F_Invalid", 200), cov("U2", "U2_ScriptsQ", "F_Invalid", 120), cov("U2", "U2_ScriptsDead", "F_Invalid", 200)],
+               "thorough": [cov("U1", "U1_Scripts", "F_Invalid", 2500), cov("U2", "U2_Scripts", "F_Invalid", 2000), cov("U2", "U2_ScriptsDead", "F_Invalid", 1500),
+                            cov("U3", "U3_Scripts", "F_Invalid", 800)]},
         actions={"invalid", "op1", "resize"}, level="fault_enumeration",
         exhaustive={"quick": [("U1", 3, "Fam_C17")], "thorough": [("U1", 4, "Fam_C17")]},
         simulate={"quick": [sim("U1", 96, 10, "Fam_C17", "NextSim_Invalid"), sim("U2", 48, 10, "Fam_C17", "NextSim_Invalid")],
                   "thorough": [sim("U1", 800, 12, "Fam_C17", "NextSim_Invalid"), sim("U2", 400, 12, "Fam_C17", "NextSim_Invalid"),
                                sim("U3", 200, 12, "Fam_C17", "NextSim_Invalid")]}),
     "C18": dict(
+        claims_actions=True,     # every subsystem shares its value with another one: any divergence here is a confusion candidate
         cover={"quick": [cov("U2", "U2_ScriptsQ", "F_Measure", 220, init="U2_Same"), cov("U2", "U2_ScriptsReg", "F_Reg", 180, init="U2_Same")],
                "thorough": [cov("U2", "U2_Scripts", "F_Measure", 2500, init="U2_Same"), cov("U2", "U2_ScriptsReg", "F_Reg", 2000, init="U2_Same"),
                             cov("U3", "U3_Scripts", "F_Measure", 1500, init="U3_Same")]},
-        actions={"measure", "cecombine", "cereorder", "traceout", "opn", "povm"},
+        actions={"measure", "cecombine", "cereorder", "traceout", "opn", "opk", "op1", "povm", "kraus", "newcomposite", "resize", "envcombine", "expand", "contract"},
         exhaustive={"quick": [("U4", 3, "Fam_C18")], "thorough": [("U4", 4, "Fam_C18")]},
         ex_init={"U4": "U4_ExInit"},
         simulate={"quick": [sim("U2", 64, 9, "Fam_C18", "NextSim_Measure", init="U2_Same"), sim("U3", 64, 9, "Fam_C18", "NextSim_Measure", init="U3_Same")],
@@ -110,7 +119,10 @@ REPLAY_PLANS = {
 }
 
 REPLAY_PLANS["C15"] = dict(
-    cover=covers("F_Op"),
+    cover={"quick": [cov("U1", "U1_ScriptsQ", "F_Op", 200, ops="R"), cov("U2", "U2_ScriptsQ", "F_Op", 160, ops="R"),
+                     cov("U4", "U4_ScriptsOps", "F_Op", 200, ops="R", init="U4_OpsInit")],
+           "thorough": [cov("U1", "U1_Scripts", "F_Op", 2000, ops="R"), cov("U2", "U2_Scripts", "F_Op", 2000, ops="R"),
+                        cov("U4", "U4_ScriptsOps", "F_Op", 1500, ops="R", init="U4_OpsInit", depth=2), cov("U3", "U3_Scripts", "F_Op", 1000, ops="R")]},
     actions={"op1", "opn", "opk"},
     env={"VERIF_REUSE_OPS": "1"}, claims_actions=True,
     exhaustive={"quick": [("U1", 3, "Fam_C01")], "thorough": [("U1", 4, "Fam_C01")]},
